@@ -97,6 +97,9 @@ def cases(tier, seed):
         out.append({'g': g, 'directed': d, 'ws': seed * 100 + i})
     for g in G.many_paths(34 if thorough else 28):
         out.append({'g': g, 'directed': g[-1] is True, 'ws': 1})
+    for g in G.blob_chains(300 if thorough else 100):
+        out.append({'g': g, 'directed': False, 'ws': 1, 'only': ['distance_wei~bin', 'distance_bin~binarized', 'reachdist~binarized',
+                                                                  'efficiency_wei~bin_global', 'efficiency_bin~binarized']})
     for g in G.many_paths(200 if thorough else 131):
         if len(G.build(g)) > 34:
             out.append({'g': g, 'directed': g[-1] is True, 'ws': 1, 'only': ['distance_wei~bin', 'distance_bin~binarized', 'reachdist~binarized']})
